@@ -46,7 +46,7 @@ use std::sync::atomic::{AtomicPtr, AtomicU32, AtomicU64, Ordering};
 use crate::verif::sync::atomic::{AtomicPtr, AtomicU32, AtomicU64};
 #[cfg(zipora_verif)]
 use std::sync::atomic::Ordering;
-use std::sync::{Arc, Weak};
+use std::sync::{Arc, Mutex, Weak};
 use std::time::{Instant, SystemTime, UNIX_EPOCH};
 
 /// Magic constants for corruption detection
@@ -674,9 +674,16 @@ unsafe impl Send for SecureChunk {}
 // the pointer requires external synchronization (which SecurePooledPtr provides).
 unsafe impl Sync for SecureChunk {}
 
-/// Lock-free stack for high-performance chunk storage (Treiber stack)
+/// Stack for chunk storage (Treiber stack): `push` is lock-free, `pop` is serialised.
+///
+/// A popper dereferences the head node after loading it. With several concurrent
+/// poppers and no reclamation scheme another popper can free that node in between
+/// (use-after-free), or pop it and push it back so that a stale successor is installed
+/// (ABA). Allowing one popper at a time removes both: only the popper unlinks nodes, so
+/// the node it loaded stays allocated and linked until its own compare-exchange.
 struct LockFreeStack<T> {
     head: AtomicPtr<Node<T>>,
+    pop_lock: Mutex<()>,
 }
 
 struct Node<T> {
@@ -688,6 +695,7 @@ impl<T> LockFreeStack<T> {
     fn new() -> Self {
         Self {
             head: AtomicPtr::new(std::ptr::null_mut()),
+            pop_lock: Mutex::new(()),
         }
     }
 
@@ -716,6 +724,9 @@ impl<T> LockFreeStack<T> {
     }
 
     fn pop(&self) -> Option<T> {
+        // One popper at a time (see the type's documentation). A poisoned lock only
+        // means another popper panicked; the stack itself is still consistent.
+        let _popper = self.pop_lock.lock().unwrap_or_else(|e| e.into_inner());
         loop {
             let head = self.head.load(Ordering::Acquire);
             if head.is_null() {
